@@ -11,6 +11,7 @@ import (
 	"strconv"
 	"strings"
 	"sync"
+	"sync/atomic"
 	"time"
 
 	"github.com/tidwall/tile38/internal/server"
@@ -176,6 +177,7 @@ type Node struct {
 	Dir      string
 	shutdown chan bool
 	done     chan error
+	Shrinks  atomic.Int64 // log rewrites that have ended
 }
 
 // StartNode starts a server below base.
@@ -200,10 +202,13 @@ func startNode(base string) (*Node, error) {
 	n.Addr = fmt.Sprintf("127.0.0.1:%d", n.Port)
 	var mu sync.Mutex
 	t38.SetHook(n.Port, func(s *server.Server, point string, args ...interface{}) {
-		if point == "server.started" {
+		switch point {
+		case "server.started":
 			mu.Lock()
 			n.S = s
 			mu.Unlock()
+		case "shrink.end":
+			n.Shrinks.Add(1)
 		}
 	})
 	go func() {
